@@ -137,4 +137,153 @@ theorem fromInstant_out_of_range (t : Int)
   unfold fromInstant
   rw [if_pos h]
 
+/-! ### `from_str` never panics -/
+
+theorem decode_ascii (s : List Nat) (h : isAscii s = true) : decodeUtf8 s = some s := by
+  induction s with
+  | nil => rfl
+  | cons b rest ih =>
+    unfold isAscii at h
+    simp only [List.all_cons, Bool.and_eq_true, decide_eq_true_eq] at h
+    unfold decodeUtf8
+    rw [if_pos h.1, ih (by unfold isAscii; exact h.2)]
+    rfl
+
+theorem ascii_mem (s : List Nat) (h : isAscii s = true) (i : Nat) (b : Nat) (hb : s[i]? = some b) : b < 128 := by
+  unfold isAscii at h
+  rw [List.all_eq_true] at h
+  have := h b (List.mem_of_getElem? hb)
+  simpa using this
+
+theorem isCharBoundary_ascii (s : List Nat) (h : isAscii s = true) (i : Nat) (hi : i ≤ s.length) :
+    isCharBoundary s i = true := by
+  unfold isCharBoundary
+  split
+  · rfl
+  · cases hb : s[i]? with
+    | none =>
+      simp only [beq_iff_eq]
+      have := List.getElem?_eq_none_iff.1 hb
+      omega
+    | some b =>
+      have := ascii_mem s h i b hb
+      simp only [isCont, Bool.not_eq_true', Bool.and_eq_false_iff, decide_eq_false_iff_not]
+      omega
+
+theorem sliceStr_ascii (s : List Nat) (h : isAscii s = true) (a b : Nat) (hab : a ≤ b) (hb : b ≤ s.length) :
+    sliceStr s a b = some ((s.drop a).take (b - a)) := by
+  unfold sliceStr
+  rw [if_pos ⟨hab, isCharBoundary_ascii s h a (by omega), isCharBoundary_ascii s h b hb⟩]
+
+theorem fromStrBody_ne_panic (s : List Nat) (h : isAscii s = true) (hl : s.length = 20) :
+    fromStrBody s ≠ .error .panic := by
+  unfold fromStrBody
+  rw [sliceStr_ascii s h 0 4 (by omega) (by omega), sliceStr_ascii s h 5 7 (by omega) (by omega),
+    sliceStr_ascii s h 8 10 (by omega) (by omega), sliceStr_ascii s h 11 13 (by omega) (by omega),
+    sliceStr_ascii s h 14 16 (by omega) (by omega), sliceStr_ascii s h 17 19 (by omega) (by omega)]
+  simp only
+  repeat' split
+  all_goals first
+    | (intro hc; cases hc; done)
+    | (exfalso; exact new_ne_panic _ _ _ _ _ _ ‹_›)
+
+theorem shapeOk_length (chars : List Nat) (h : shapeOk chars = true) : chars.length = 20 := by
+  unfold shapeOk at h
+  simp only [Bool.and_eq_true, beq_iff_eq] at h
+  exact h.1.1.1.1.1.1
+
+theorem fromStr_ne_panic (s : List Nat) : fromStr s ≠ .error .panic := by
+  unfold fromStr
+  cases hd : decodeUtf8 s with
+  | none => simp
+  | some chars =>
+    simp only
+    by_cases hc : (isAscii s && shapeOk chars) = true
+    · rw [if_pos hc]
+      simp only [Bool.and_eq_true] at hc
+      have := decode_ascii s hc.1
+      rw [hd] at this
+      cases this
+      exact fromStrBody_ne_panic s hc.1 (shapeOk_length s hc.2)
+    · rw [if_neg hc]; simp
+/-! ### digits: `{:0w}` and `str::parse` -/
+
+theorem natDigits_lt10 (n : Nat) (h : n < 10) : natDigits n = [48 + n] := by
+  rw [natDigits, dif_pos h]; unfold digitChar; congr 1; omega
+
+theorem natDigits_lt100 (n : Nat) (h1 : 10 ≤ n) (h : n < 100) : natDigits n = [48 + n / 10, 48 + n % 10] := by
+  rw [natDigits, dif_neg (by omega), natDigits_lt10 (n / 10) (by omega)]; rfl
+
+theorem natDigits_lt1000 (n : Nat) (h1 : 100 ≤ n) (h : n < 1000) :
+    natDigits n = [48 + n / 100, 48 + n / 10 % 10, 48 + n % 10] := by
+  rw [natDigits, dif_neg (by omega), natDigits_lt100 (n / 10) (by omega) (by omega)]
+  have : n / 10 / 10 = n / 100 := by omega
+  rw [this]; rfl
+
+theorem natDigits_lt10000 (n : Nat) (h1 : 1000 ≤ n) (h : n < 10000) :
+    natDigits n = [48 + n / 1000, 48 + n / 100 % 10, 48 + n / 10 % 10, 48 + n % 10] := by
+  rw [natDigits, dif_neg (by omega), natDigits_lt1000 (n / 10) (by omega) (by omega)]
+  have e1 : n / 10 / 100 = n / 1000 := by omega
+  have e2 : n / 10 / 10 % 10 = n / 100 % 10 := by omega
+  rw [e1, e2]; rfl
+
+theorem padZero2 (n : Nat) (h : n < 100) : padZero 2 n = [48 + n / 10, 48 + n % 10] := by
+  unfold padZero
+  by_cases h1 : n < 10
+  · rw [natDigits_lt10 n h1]
+    have e1 : n / 10 = 0 := by omega
+    have e2 : n % 10 = n := by omega
+    rw [e1, e2]; rfl
+  · rw [natDigits_lt100 n (by omega) h]; rfl
+
+theorem padZero4 (n : Nat) (h : n < 10000) :
+    padZero 4 n = [48 + n / 1000, 48 + n / 100 % 10, 48 + n / 10 % 10, 48 + n % 10] := by
+  unfold padZero
+  by_cases h1 : n < 10
+  · rw [natDigits_lt10 n h1]
+    have e1 : n / 1000 = 0 := by omega
+    have e2 : n / 100 % 10 = 0 := by omega
+    have e3 : n / 10 % 10 = 0 := by omega
+    have e4 : n % 10 = n := by omega
+    rw [e1, e2, e3, e4]; rfl
+  · by_cases h2 : n < 100
+    · rw [natDigits_lt100 n (by omega) h2]
+      have e1 : n / 1000 = 0 := by omega
+      have e2 : n / 100 % 10 = 0 := by omega
+      have e3 : n / 10 % 10 = n / 10 := by omega
+      rw [e1, e2, e3]; rfl
+    · by_cases h3 : n < 1000
+      · rw [natDigits_lt1000 n (by omega) h3]
+        have e1 : n / 1000 = 0 := by omega
+        have e2 : n / 100 % 10 = n / 100 := by omega
+        rw [e1, e2]; rfl
+      · rw [natDigits_lt10000 n (by omega) h]; rfl
+
+theorem isDigit_add (a : Nat) (ha : a < 10) : isDigit (48 + a) = true := by
+  unfold isDigit; simp; omega
+
+theorem parseUnsigned_2 (max a b : Nat) (ha : a < 10) (hb : b < 10) (hm : a * 10 + b ≤ max) :
+    parseUnsigned max [48 + a, 48 + b] = some (a * 10 + b) := by
+  unfold parseUnsigned
+  split
+  · next h => cases h
+  · next h => simp only [List.cons.injEq] at h; omega
+  · next h => simp only [List.cons.injEq] at h; omega
+  · next h => simp only [List.cons.injEq] at h; omega
+  · simp only [parseDigits, isDigit_add a ha, isDigit_add b hb, if_true]
+    rw [if_neg (by omega), if_neg (by omega)]
+    congr 1; omega
+
+theorem parseUnsigned_4 (max a b c d : Nat) (ha : a < 10) (hb : b < 10) (hc : c < 10) (hd : d < 10)
+    (hm : ((a * 10 + b) * 10 + c) * 10 + d ≤ max) :
+    parseUnsigned max [48 + a, 48 + b, 48 + c, 48 + d] = some (((a * 10 + b) * 10 + c) * 10 + d) := by
+  unfold parseUnsigned
+  split
+  · next h => cases h
+  · next h => simp only [List.cons.injEq] at h; omega
+  · next h => simp only [List.cons.injEq] at h; omega
+  · next h => simp only [List.cons.injEq] at h; omega
+  · simp only [parseDigits, isDigit_add a ha, isDigit_add b hb, isDigit_add c hc, isDigit_add d hd, if_true]
+    rw [if_neg (by omega), if_neg (by omega), if_neg (by omega), if_neg (by omega)]
+    congr 1; omega
 end Radix.Utc
